@@ -157,6 +157,12 @@ def pfc_case(args):
                 f = f.force_local()
             plan = [["x", 2, inner_plan]]
             want = ["n0", "exc:RuntimeError"]
+        elif where in ("explicit-root", "explicit-root-batch"):
+            # the prevented call is to a function with a declared version
+            f = fx.ne.with_prevent_further_calls(True)
+            f = f if c is None else f.with_context_args(rc)
+            plan = [["x", 2, inner_plan]] if where == "explicit-root" else [["b", 2, [inner_plan]]]
+            want = ["ne", "exc:RuntimeError"] if where == "explicit-root" else "EXC:RuntimeError"
         else:
             f = fx.n0 if c is None else fx.n0.with_context_args(rc)
             plan = [["pfc", 1, [["x", 2, inner_plan]]]]
@@ -169,7 +175,7 @@ def pfc_case(args):
         bad = None
         if "n2" in ran:
             bad = ("nested-executed", "nested call executed although further calls are prevented (bodies %s)" % ran)
-        elif got != want:
+        elif got != want and not (where == "explicit-root-batch" and got == ["ne", ["exc:RuntimeError"]]):
             bad = ("nested-not-refused", "got %r, expected %r (nested memento call must fail with RuntimeError)" % (got, want))
         if bad:
             sig = "pfc|%s|at:%s|nested-memoized:%s|%s" % (kind, where, premem, bad[0])
@@ -332,7 +338,7 @@ def run(ctx):
             for how in ("then-local", "local-first", "batch"):
                 tasks.append(("fsc", plan, ca, cb, how))
     ctx.merge(pmap(pair_case, tasks, chunksize=8))
-    ptasks = [(k, w, p, c) for k in ("mem", "fs", "fsc") for w in ("root", "root-then-local", "inner") for p in (False, True) for c in ROOT_CTX]
+    ptasks = [(k, w, p, c) for k in ("mem", "fs", "fsc") for w in ("root", "root-then-local", "inner", "explicit-root", "explicit-root-batch") for p in (False, True) for c in ROOT_CTX]
     ctx.merge(pmap(pfc_case, ptasks, chunksize=4))
     # context arguments travel down the call stack of the calling THREAD only
     cs = []
